@@ -424,19 +424,28 @@ class Gen:
     def op_provn(self):
         self.emit(["ExportProvn", str(self.rng.randrange(len(self.im.docs)))])
 
+    def op_graph(self):
+        cands = [i for i, d in enumerate(self.im.docs) if not d._bundles] or [0]
+        d = self.rng.choice(cands)
+        if self.rng.random() < 0.6:
+            self.emit(["ToGraph", str(d)])
+        else:
+            self.emit(["GraphRoundTrip", str(d)])
+
     PROFILES = {
         #            ns  bundle newrec factory addattr settime addtype addrec update addbdoc derive get  eq  newdoc
-        "records": [10, 4, 30, 30, 22, 6, 6, 2, 0, 0, 0, 3, 2, 1, 0, 0],
-        "merge":   [8, 8, 22, 12, 6, 1, 2, 8, 10, 6, 10, 8, 3, 5, 0, 0],
-        "mixed":   [8, 5, 22, 16, 10, 3, 3, 5, 5, 3, 6, 6, 4, 3, 0, 0],
-        "json":    [10, 7, 26, 18, 10, 2, 4, 3, 3, 2, 2, 1, 1, 2, 9, 0],
-        "provn":   [10, 7, 26, 18, 10, 2, 4, 3, 3, 2, 2, 1, 1, 2, 0, 9],
+        "records": [10, 4, 30, 30, 22, 6, 6, 2, 0, 0, 0, 3, 2, 1, 0, 0, 0],
+        "merge":   [8, 8, 22, 12, 6, 1, 2, 8, 10, 6, 10, 8, 3, 5, 0, 0, 0],
+        "mixed":   [8, 5, 22, 16, 10, 3, 3, 5, 5, 3, 6, 6, 4, 3, 0, 0, 0],
+        "json":    [10, 7, 26, 18, 10, 2, 4, 3, 3, 2, 2, 1, 1, 2, 9, 0, 0],
+        "provn":   [10, 7, 26, 18, 10, 2, 4, 3, 3, 2, 2, 1, 1, 2, 0, 9, 0],
+        "graph":   [8, 0, 26, 30, 8, 2, 3, 3, 2, 0, 2, 1, 1, 2, 0, 0, 10],
     }
 
     def run(self, n_ops):
         fns = [self.op_ns, self.op_new_bundle, self.op_new_record, self.op_factory, self.op_add_attrs, self.op_set_time,
                self.op_add_type, self.op_add_record, self.op_update, self.op_add_bundle_doc, self.op_derive, self.op_get,
-               self.op_eq, self.op_new_doc, self.op_json, self.op_provn]
+               self.op_eq, self.op_new_doc, self.op_json, self.op_provn, self.op_graph]
         weights = self.PROFILES[self.profile]
         self.op_new_doc()
         # a typical preamble: a couple of declared namespaces
